@@ -211,7 +211,7 @@ def run_C08(ctx):
                   require_actions=["ConcatOp", "SameValueOp", "StoreAux"],
                   max_cases=None if ctx.quick() else 3000000)
     ctx.chain_phase("chains-code-to-spec", (4000 if ctx.quick() else 60000), 5, ops={"concatself", "same"})
-    ctx.pychain_phase("python-chains-code-to-spec", (4000 if ctx.quick() else 60000), 5, ops={"concat0", "concat1", "concatperm", "same", "maysame"})
+    ctx.pychain_phase("python-chains-code-to-spec", (4000 if ctx.quick() else 60000), 5, ops={"concat0", "concat1", "concat2", "concatperm", "same", "maysame"})
     return ctx.finish(assumptions=["ak.concatenate(axis=0) is replayed as its C++ call sequence mergeable/mergemany/merge_as_union/simplify_uniontype",
                                    "leaf values are small integers representable in every dtype used"])
 
